@@ -331,6 +331,24 @@ class T8080:
 
 
 TARGETS = {"4004": T4004, "8080": T8080}
+ALL_PROPERTY_TARGETS = ["4004", "8080", "6502", "pic16c8x", "msp430", "avr", "z80"]
+
+
+def load_plugins():
+    """Further targets live in vlib/props/c14t_<name>.py: `T` (a class with the attributes of T4004: name, cpus, sentinel, gran,
+    header, org, sent, sent_bytes, cases, sig) and `GENERATED` (tables of translate/tables.py the target's Lean files need).
+    They may import Case, limits, num_intel, num_moto from this module."""
+    import importlib
+    import pkgutil
+    from .. import props as _pkg
+    for m in sorted(pkgutil.iter_modules(_pkg.__path__), key=lambda x: x.name):
+        if m.name.startswith("c14t_"):
+            mod = importlib.import_module("vlib.props." + m.name)
+            if mod.T.name not in TARGETS:
+                TARGETS[mod.T.name] = mod.T
+                for g in getattr(mod, "GENERATED", []):
+                    if g not in GENERATED:
+                        GENERATED.append(g)
 
 
 # ----------------------------------------------------------------------------------------------
@@ -485,6 +503,11 @@ GENERATED = ["IntTypes", "Isa_Common", "Isa_4004", "Isa_8080"]
 
 
 def run(args):
+    load_plugins()
+    only = os.environ.get("C14_ONLY")   # development aid: restrict the run to some targets (comma separated)
+    if only:
+        for k in [k for k in TARGETS if k not in only.split(",")]:
+            del TARGETS[k]
     res = common.Result("C14", args.tier, args.seed, "proof")
     bdir, audit, proof_problems = common.standard_setup(res, "C14", GENERATED)
     if bdir is None:
@@ -511,7 +534,7 @@ def run(args):
                 d = dist.setdefault(tname, dict(cases=0, mnemonics={}))
                 d["spec_forms"] = len(forms)
                 d["mnemonics"] = len(d["mnemonics"])
-                pick = [c for c in cases if c.tag in ("jcn", "isz", "fim", "lxi", "mvi", "goto", "branch") and not c.real.startswith("E")][:2] + [c for c in cases if c.real.startswith("E")][:1]
+                pick = [c for c in cases if (c.tag in ("jcn", "isz", "fim", "lxi", "mvi", "goto", "branch") or c.tag in getattr(T, "sample_tags", ())) and not c.real.startswith("E")][:2] + [c for c in cases if c.real.startswith("E")][:1]
                 samples += [c.as_dict() for c in pick]
     res.coverage = common.proof_coverage(audit, "C14", [
         "translate/tables.py (clang-14 JSON AST of InitFields()/code*_init()/page-check calls; errmsg.h numbers via compiled dumper)",
@@ -522,7 +545,7 @@ def run(args):
         rule="one case = (target, CPU variant, program counter, mnemonic, evaluated operand values); distinct by that tuple; every case is a full instruction statement "
              "assembled by the real asl at its own ORG; operand values: 0, field limits, limits +-1/+-2, random interior, far outside; exhaustive where noted in by_tag (*-all-targets, addr12)",
         samples=samples, distribution=dist, harness=stats,
-        targets_modelled=sorted(TARGETS), targets_not_modelled=["PIC16C8x", "6502/65C02", "Z80", "MSP430", "AVR"],
+        targets_modelled=sorted(TARGETS), targets_not_modelled=[t for t in ALL_PROPERTY_TARGETS if t not in TARGETS],
         exhaustive=False)
     res.assumptions = ["operands are literal numbers/register names (expression evaluation is C08's subject; no forward references, no questionable symbols)",
                        "the SPEC opcode maps are the author's transcription of the manufacturers' manuals"]
@@ -532,6 +555,7 @@ def run(args):
 def replay(args):
     d = json.load(open(args.replay))
     print(json.dumps({k: (v if len(str(v)) < 2000 else str(v)[:2000] + "...") for k, v in d.items()}, indent=1))
+    load_plugins()
     if "source" in d and d.get("target") in TARGETS:
         T = TARGETS[d["target"]]
         bdir = common.repo_build("hooks")
